@@ -242,3 +242,48 @@ pub fn bin_rule(o: Bin, a: D, b: D) -> Rule {
     r.skip |= !x.is_finite() || !y.is_finite() || !r.out.v.is_finite();
     r
 }
+
+////////////////////////////////////////////////////////////////////////////////
+
+use crate::refmodel::graph::{map_bin, map_un};
+use fidget_core::context::{Context, Node, Op};
+use fidget_core::var::Var;
+use std::collections::HashMap;
+
+/// f64 dual evaluation of a context graph with arbitrary input duals.
+/// Per node: the dual and whether a locus / range guard fired on the way.
+pub fn eval_graph_dual(
+    ctx: &Context,
+    order: &[Node],
+    inputs: &HashMap<Var, D>,
+) -> HashMap<Node, (D, bool)> {
+    let mut out: HashMap<Node, (D, bool)> = HashMap::with_capacity(order.len());
+    for &n in order {
+        let r = match *ctx.get_op(n).unwrap() {
+            Op::Input(v) => (inputs.get(&v).copied().unwrap_or(D::constant(f64::NAN)), false),
+            Op::Const(c) => (D::constant(c.0 as f64), false),
+            Op::Unary(o, a) => {
+                let (da, sa) = out[&a];
+                let r = un_rule(map_un(o), da);
+                (r.out, sa || r.skip)
+            }
+            Op::Binary(o, a, c) => {
+                let (da, sa) = out[&a];
+                let (dc, sc) = out[&c];
+                let r = bin_rule(map_bin(o), da, dc);
+                // a min/max/and/or only inherits the guard of the branch it
+                // takes, plus its own tie guard
+                let inherited = match map_bin(o) {
+                    Bin::Min => if da.v < dc.v { sa } else { sc },
+                    Bin::Max => if da.v > dc.v { sa } else { sc },
+                    Bin::And => if da.v == 0.0 { sa } else { sc },
+                    Bin::Or => if da.v != 0.0 { sa } else { sc },
+                    _ => sa || sc,
+                };
+                (r.out, inherited || r.skip)
+            }
+        };
+        out.insert(n, r);
+    }
+    out
+}
